@@ -19,6 +19,7 @@ K_CHECKSUM = {"unit": "checksum", "inject": "elvis-core/src/protocols/utility.rs
 K_SEGORD = {"unit": "segord", "inject": "elvis-core/src/protocols/tcp/tcb/segment.rs", "crate": "elvis-core"}
 K_TCB = {"unit": "tcb", "inject": "elvis-core/src/protocols/tcp/tcb.rs", "crate": "elvis-core"}
 
+TCB_SCEN = " BOUNDED, never counted as proved (DESIGN.md 3.5/3.6): the two-endpoint scenario h_s_two_endpoints (300 pseudo-random histories over a lossy / duplicating / reordering then loss-free network; prefix property, bounded liveness, release after close, send-window check, ISN-relative trace comparison) runs as a plain test on the real Tcb in every check; when a repository change takes a function out of the fragment Verus ingests, the scenario witnesses paired with the unit are run on the real code and one that fails is reported as a violation with that concrete input. "
 TCB_NOTE = ("Trusted: Verus/Z3; Message imported by contract (verified in unit message), comparison primitives imported by contract (verified in unit modcmp); "
             "ASSUMED specs: BinaryHeap (new/push/pop/peek), Duration arithmetic wrappers, mem::take/Default (derive(Default) on Message), VecDeque::{get,front,front_mut}, "
             "core::{to,from}_be_bytes wrappers; declared rewrites listed in the evidence (generic Message::slice wrapper inlined, `mut self` builders, empty array iterator, Duration operators). ")
@@ -40,7 +41,7 @@ PROPS = {
         "level": "proof",
         "technique": "Verus contract on the buffer arithmetic of the extracted Socket::recv (loop closed by an inductive invariant) over a ghost queue of pending messages; concrete witnesses replayed on the real async function",
         "level_text": "READ-SIDE SENTENCE ('a read that asks for at most n bytes never returns more than n, and successive reads never lose, duplicate or reorder bytes'): Socket::recv is verified, for every request size, every stored remainder and every queue of pending messages (unbounded number and sizes, arbitrary chunk layouts), to return at most `bytes` bytes and to satisfy  returned ++ pending_after == pending_before, where pending = stored remainder ++ concatenation of the queued messages in delivery order. By induction over calls the concatenation of successive reads is a prefix of what the socket was handed, in order, with nothing lost or duplicated; Socket::recv_msg is verified against the same ghost stream (it takes exactly the stored remainder, else the head message). Hand-over side: SocketSession::receive appends an accepted message at the end of what the socket will be handed (the channel when the socket exists, else the parked queue), and SocketSession::receive_stored_messages - the replay done by accept() - moves the parked messages into the channel in arrival order, each once. Of the first sentence of C02 (what the peer's socket is handed equals what was written) the per-call TCP pieces are included from the TCB unit (the clauses tagged C02: send() appends in order, segments() tiles the submitted text into consecutively numbered segments, the retransmission queue keeps every unacknowledged segment, the receive side appends exactly the text that continues the stream and hands the buffer out once, the reorder heap pops in circular sequence order); their composition across the network, Socket::send's task spawning, TcpSession's instruction queue and tokio schedules are NOT decided.",
-        "level_note": "Trusted: Verus/Z3; Message imported by contract (verified in unit message; Message::iter() 'yields exactly the view' is that unit's assumption). The extraction keeps the function body but applies declared rewrites that remove everything asynchronous: `async`, the session/listening check, yield_now, the shutdown subscription; `select!{shutdown, recv}` and `try_recv()` are routed to assumed-contract queue functions (a delivered message is the head of the ghost queue), Vec::extend(iter) to an assumed-contract append; struct Socket is reduced to the three fields recv uses. Hence concurrency (a message arriving or shutdown firing during the call) is modelled only as the nondeterministic outcome of those two functions. Termination of the receive loop is not verified. SocketSession's RwLocks are removed by declared rewrites (&self / Arc<Self> -> &mut self, lock guards -> plain borrows; tokio Sender -> assumed-contract VxSender log), so lock order and concurrent callers (a message arriving between `upstream = Some` and the replay) are not modelled; the failure path of the replay (channel refuses a message: the code drops it and accept() unwraps) carries no clause. Socket::accept itself, Socket::send (tokio::spawn per write), TcpSession ordering and datagram isolation are not under contract.",
+        "level_note": "Trusted: Verus/Z3; Message imported by contract (verified in unit message; Message::iter() 'yields exactly the view' is that unit's assumption). The extraction keeps the function body but applies declared rewrites that remove everything asynchronous: `async`, the session/listening check, yield_now, the shutdown subscription; `select!{shutdown, recv}` and `try_recv()` are routed to assumed-contract queue functions (a delivered message is the head of the ghost queue), Vec::extend(iter) to an assumed-contract append; struct Socket is reduced to the three fields recv uses. Hence concurrency (a message arriving or shutdown firing during the call) is modelled only as the nondeterministic outcome of those two functions. Termination of the receive loop is not verified. SocketSession's RwLocks are removed by declared rewrites (&self / Arc<Self> -> &mut self, lock guards -> plain borrows; tokio Sender -> assumed-contract VxSender log), so lock order and concurrent callers (a message arriving between `upstream = Some` and the replay) are not modelled; the failure path of the replay (channel refuses a message: the code drops it and accept() unwraps) carries no clause. Socket::accept itself, Socket::send (tokio::spawn per write), TcpSession ordering and datagram isolation are not under contract. BOUNDED stand-in, never counted as proved (DESIGN.md 3.5): when a repository change takes a function out of the fragment Verus ingests (unit undecided), the model-differential scenario of the unit (the socket scenario witnesses of unit sockrecv and the TCB scenarios) is run on the real code; a failure is reported as a violation with that concrete input, otherwise the check stays undecided (exit 2).",
         "assumptions": ["tokio mpsc delivers queued messages in FIFO order (assumed contract of vx_recv_blocking / vx_try_recv)", "Vec::extend appends exactly what the iterator yields", "cross-stack delivery (first sentence of C02) undecided"],
         "explanation": "bounded reads over the socket's pending byte stream",
     },
@@ -50,7 +51,7 @@ PROPS = {
         "level": "proof",
         "technique": "Verus contracts on the extracted ip_generator.rs functions against the set-of-available-addresses view (loops closed by inductive invariants), on top of the subnet arithmetic contracts",
         "level_text": "Every IpGenerator operation is verified against the abstraction free(g) = set of addresses covered by some available range: block_range/block_subnet remove exactly the blocked addresses, return_* add exactly the returned ones, fetch_net returns only an aligned network of the requested mask all of whose addresses were available and removes exactly those (so nothing is handed out twice while held), reports None only when no available range holds an aligned network of that size, fetch_ip likewise; constructors new/new_sub/new_sub_no_ends/all/none offer exactly the stated pool. Uniqueness of held addresses over any history of block/fetch/return follows by induction from these per-call equations.",
-        "level_note": "Trusted: Verus/Z3 and the subnet unit's assumptions (imported by contract). ASSUMED: BTreeSet::retain specification; vx_ranges (iterating a BTreeSet yields exactly its elements: vstd's iter specification is unusable for a user-defined key); vstd's opaque key_obeys_cmp_spec::<IpRange>() with derive(Ord) on IpRange taken as lexicographic. Declared rewrites: closures annotated with postconditions, `impl From<Ipv4Net> for IpRange` verified as a free function with the precondition net.wf(), iterator adapters -> index loops. NOT decided: the DHCP lease clause (DhcpServer::demux over UDP sessions and locks: async stack); is_available, block_reserved_ips, into_*_iter are not under contract.",
+        "level_note": "Trusted: Verus/Z3 and the subnet unit's assumptions (imported by contract). ASSUMED: BTreeSet::retain specification; vx_ranges (iterating a BTreeSet yields exactly its elements: vstd's iter specification is unusable for a user-defined key); vstd's opaque key_obeys_cmp_spec::<IpRange>() with derive(Ord) on IpRange taken as lexicographic. Declared rewrites: closures annotated with postconditions, `impl From<Ipv4Net> for IpRange` verified as a free function with the precondition net.wf(), iterator adapters -> index loops. NOT decided: the DHCP lease clause (DhcpServer::demux over UDP sessions and locks: async stack); is_available, block_reserved_ips, into_*_iter are not under contract. BOUNDED stand-in, never counted as proved (DESIGN.md 3.5): when a repository change takes a function out of the fragment Verus ingests (unit undecided), the model-differential scenario of the unit (h_w_ipgen_model: 3000 fetch/return/block histories on a /26 pool vs the set of available addresses) is run on the real code; a failure is reported as a violation with that concrete input, otherwise the check stays undecided (exit 2).",
         "assumptions": ["Ipv4Net / Ipv4Mask values satisfy their type invariant wf()", "BTreeSet iteration yields exactly the set's elements"],
         "explanation": "address generator as a set of available addresses",
     },
@@ -60,7 +61,7 @@ PROPS = {
         "level": "proof",
         "technique": "Verus contracts on the extracted tcb.rs functions (inductive per-call step over the TCB invariant), witnesses replayed on the real code",
         "level_text": "Inductive step for arbitrary segments: for every TCB satisfying the invariant and every syntactically valid segment, Tcb::process_segment (the real 330-line function, all nine states, all 64 flag combinations, all sequence/ack/window values) does not panic (every assert!, unwrap, subtraction, cast and slice bound is a discharged obligation), preserves the invariant, never advances SND.NXT, takes the send window only from the peer's advertisement, is inert for segments outside the receive window (RFC 9293 Table 6 as an exact contract on is_seq_ok) and ignores segments with neither SYN nor RST in SYN-SENT.",
-        "level_note": TCB_NOTE + "Whole-history clause follows by induction over calls (each call is an arbitrary segment). See evidence for which API functions are under contract.",
+        "level_note": TCB_NOTE + TCB_SCEN + "Whole-history clause follows by induction over calls (each call is an arbitrary segment). See evidence for which API functions are under contract.",
         "assumptions": ["segments are syntactically valid: text <= 65515 octets, data offset 5", "segment_arrives hands process_segment only segments not ahead of RCV.NXT (checked in its own contract when under contract)"],
         "explanation": "TCP endpoint robustness as a per-call inductive step",
     },
@@ -70,7 +71,7 @@ PROPS = {
         "level": "proof",
         "technique": "Verus contracts on the extracted tcb.rs functions: RFC 9293 Figure 5 transition relation as a postcondition of every state-changing function",
         "level_text": "Every state-changing TCB function carries the postcondition that (old state, new state, control bits) is an edge (or a two-step edge a single segment can take) of the RFC 9293 state diagram; the TCB is released only by the final ACK in LAST-ACK or by a reset; acceptable text is delivered in ESTABLISHED / FIN-WAIT-1 / FIN-WAIT-2 as far as the buffer has room (data before a close is not lost).",
-        "level_note": TCB_NOTE + "NOT decided here: the two-endpoint clause (each side's RCV.NXT equals what the peer has sent), liveness of release under a fair network, Tcp::demux/open/listen session-table behaviour (DashMap/Arc<dyn>/tokio).",
+        "level_note": TCB_NOTE + TCB_SCEN + "NOT decided here (the scenario is no proof): the two-endpoint clause (each side's RCV.NXT equals what the peer has sent), liveness of release under a fair network, Tcp::demux/open/listen session-table behaviour (DashMap/Arc<dyn>/tokio).",
         "assumptions": ["segments are syntactically valid"],
         "explanation": "connection state machine against RFC 9293 Figure 5",
     },
@@ -80,7 +81,7 @@ PROPS = {
         "level": "proof",
         "technique": "Verus contracts on the extracted tcb.rs functions: per-call stream-continuity contract on the receive path",
         "level_text": "Receive-side safety as a per-call contract on process_segment: bytes already buffered for the application are never altered; what is appended is exactly the part of the segment text that continues the stream at RCV.NXT; RCV.NXT advances by exactly that many octets (plus one for a consumed FIN); the buffer never exceeds the advertised window; acceptable in-order text is taken as far as there is room. By induction over calls the delivered stream is the concatenation of in-sequence segment texts.",
-        "level_note": TCB_NOTE + "NOT decided here: liveness (bounded retransmission rounds, both ends fall silent), the sender-side ghost-stream invariant (every emitted data segment is consistent with the submitted stream) unless the evidence lists Tcb::segments/send under contract with it, and the two-endpoint composition (IRS = peer ISS).",
+        "level_note": TCB_NOTE + TCB_SCEN + "NOT decided here (the scenario is no proof): liveness (bounded retransmission rounds, both ends fall silent), the sender-side ghost-stream invariant (every emitted data segment is consistent with the submitted stream) unless the evidence lists Tcb::segments/send under contract with it, and the two-endpoint composition (IRS = peer ISS).",
         "assumptions": ["segments are syntactically valid", "peer segments are consistent with the peer's stream (composition assumption)"],
         "explanation": "TCP receive-path stream continuity",
     },
@@ -90,7 +91,7 @@ PROPS = {
         "level": "proof",
         "technique": "Verus contracts on the extracted reassembly/{bitvec,fragment,segment}.rs functions; BinaryHeap by assumed specification",
         "level_text": "Per-call reassembly contract on Segment::receive_packet for all fragments and all prior states satisfying the representation invariant: exactly the blocks FO..FO+ceil(len/8) are marked, the final fragment fixes the total length, a datagram is returned exactly when the final fragment has been seen and every block is covered, the returned header is the offset-0 header with total length restored and MF cleared, an incomplete arrival bumps the epoch that guards expiry; PAYLOAD: relative to the datagram d whose slices the buffer holds (ghost parameter), for any arrival order and any exact repetitions of fragments, the pieces stay block-disjoint slices of d and the returned payload equals d byte for byte (tiling lemma over the heap's pop order, permutation lemma for push); BitVec get/set/set_range/range_complete/complete against the set-of-bits view (loops closed by invariants); Fragment order verified. ISOLATION (unit reasmmap): Reassembly::receive_packet, for any table of buffers each holding slices of the datagram its key stands for, leaves every buffer with another key untouched (fragments of different datagrams never mix), keeps that table invariant, passes an unfragmented datagram through and flushes its key, returns for a completed datagram exactly the datagram its key stands for and frees the buffer, and otherwise reports the key and epoch for the expiry timer; BufId::from_header is the RFC 791 (source, destination, protocol, identification) tuple.",
-        "level_note": "Trusted: Verus/Z3; ASSUMED specification of std BinaryHeap (new/push/pop: multiset + pop order non-increasing), Ordering::reverse; Message imported by contract (verified in unit message). Declared rewrites: closure in BitVec::complete -> loop, Message::new(vec![]) -> new_inner(Chunk::new(..)), &u8 auto-deref made explicit. NOT under contract: fragments that overlap received blocks only partially (excluded by the precondition: an arriving fragment is a slice of d that is entirely new or an exact repetition), Reassembly::maybe_cull_segment (Entry API match) and timer expiry (tokio). In unit reasmmap the FxHashMap<BufId, Segment> is replaced by an opaque map with ASSUMED std semantics for remove and entry(..).or_insert(..) (declared rewrites); hashing is not modelled (BufId Eq/Hash agreement: Kani harness bufid, equality only). Preconditions: fragments as a conforming fragmenter emits them (ihl = 5, total_length = 20 + |payload|, FO*8 + |payload| + 20 <= 65535), epoch < 65535.",
+        "level_note": "Trusted: Verus/Z3; ASSUMED specification of std BinaryHeap (new/push/pop: multiset + pop order non-increasing), Ordering::reverse; Message imported by contract (verified in unit message). Declared rewrites: closure in BitVec::complete -> loop, Message::new(vec![]) -> new_inner(Chunk::new(..)), &u8 auto-deref made explicit. NOT under contract: fragments that overlap received blocks only partially (excluded by the precondition: an arriving fragment is a slice of d that is entirely new or an exact repetition), Reassembly::maybe_cull_segment (Entry API match) and timer expiry (tokio). In unit reasmmap the FxHashMap<BufId, Segment> is replaced by an opaque map with ASSUMED std semantics for remove and entry(..).or_insert(..) (declared rewrites); hashing is not modelled (BufId Eq/Hash agreement: Kani harness bufid, equality only). Preconditions: fragments as a conforming fragmenter emits them (ihl = 5, total_length = 20 + |payload|, FO*8 + |payload| + 20 <= 65535), epoch < 65535. BOUNDED stand-in, never counted as proved (DESIGN.md 3.5): when a repository change takes a function out of the fragment Verus ingests (unit undecided), the model-differential scenario of the unit (the reassembly scenario witnesses of units reasm / reasmmap) is run on the real code; a failure is reported as a violation with that concrete input, otherwise the check stays undecided (exit 2).",
         "assumptions": ["BinaryHeap behaves as a max-priority queue (assumed spec)", "fragment headers satisfy frag_hdr_ok"],
         "explanation": "reassembly bookkeeping per RFC 791 p.28 steps (8)-(17)",
     },
@@ -110,7 +111,7 @@ PROPS = {
         "level": "proof",
         "technique": "Kani full-domain harnesses on the real fixed-size decoders (panic-freedom = every unwrap/index/arith check CBMC generates); Verus on the extracted DHCP decoder and BytesExt readers over an arbitrary byte iterator",
         "level_text": "Decoder clause: for every byte string (all lengths 0..=N+4 of symbolic bytes, symbolic packet_len) the IPv4/UDP/TCP/ARP decoders return a value or an error - CBMC proves every panic site (unwrap, index, arithmetic overflow) unreachable; truncations are always rejected; accepted inputs re-encode without panic. DHCP: DhcpMessage::from_bytes and MessageType::try_from are verified by Verus for an arbitrary (unbounded) byte iterator: every unwrap / unreachable! / `?` is a discharged obligation, a truncated fixed part is rejected, the fixed fields sit at their offsets.",
-        "level_note": "Trusted: Kani/CBMC, Verus/Z3; vstd's prophetic iterator specification; String::from_utf8 assumed total; BytesExt::next_ipv4addr by assumed contract. DNS: DnsMessage::from_bytes and DnsQuestion::query_name verified likewise. NOT decided: the NDL text parser (nom/&str: outside Verus, CBMC does not scale), and 'a frame that fails to decode is dropped at that layer' (demux glue over DashMap/Arc<dyn Protocol>/tokio).",
+        "level_note": "Trusted: Kani/CBMC, Verus/Z3; vstd's prophetic iterator specification; String::from_utf8 assumed total; BytesExt::next_ipv4addr by assumed contract. DNS: DnsMessage::from_bytes and DnsQuestion::query_name verified likewise. NOT decided: the NDL text parser (nom/&str: outside Verus, CBMC does not scale), and 'a frame that fails to decode is dropped at that layer' (demux glue over DashMap/Arc<dyn Protocol>/tokio). BOUNDED stand-in, never counted as proved (DESIGN.md 3.5): when a repository change takes a function out of the fragment Verus ingests (unit undecided), the model-differential scenario of the unit (h_w_dhcp_decode_model: truncations / corruptions of well-formed DHCP packets and 20000 pseudo-random strings) is run on the real code; a failure is reported as a violation with that concrete input, otherwise the check stays undecided (exit 2).",
         "assumptions": ["decoders read at most the fixed header from the iterator in the default feature set (accumulate_remainder is a no-op)"],
         "explanation": "decoder panic-freedom",
     },
@@ -120,7 +121,7 @@ PROPS = {
         "level": "proof",
         "technique": "Kani full-domain harnesses (loop-free => complete) on the real codec functions: decode/re-encode, encode/decode, RFC wire layout",
         "level_text": "IPv4, UDP, TCP and ARP codecs: for every fixed-size header byte string the decoder accepts, re-encoding reproduces the bytes; for every value the public builders can produce, decoding the encoding returns it; the encoder output equals the RFC 791/768/9293/826 layout written out byte by byte in the harness. DHCP and DNS (variable length, Verus): encoders emit exactly the wire-format specification (dhcp_enc / dns_enc), an accepted input's decoded value re-encodes to the consumed bytes, and decoding anything that starts with the encoding of a representable value x returns x, for unbounded names / RDATA. CBMC explores all inputs (no bound: the code is loop-free in the default feature set; the 2-iteration next_n loop is fully unwound with unwinding assertions).",
-        "level_note": "Trusted: Kani/CBMC; the harness-side RFC layouts in units/*/kani.rs are the specification (an 'independent implementation' such as etherparse is not linked). Default feature set (checksum field transmitted as zero); the compute_checksum configuration is C18. DNS/DHCP (Verus, unbounded): String modelled by uninterpreted sbytes/utf8_ok with two assumed std axioms; ghost parameter x and the rebinding of the mut iterator parameter are declared rewrites; BytesExt::next_ipv4addr assumed (validated by a complete Kani harness); Vec::extend(str::as_bytes()) routed to an assumed-contract wrapper.",
+        "level_note": "Trusted: Kani/CBMC; the harness-side RFC layouts in units/*/kani.rs are the specification (an 'independent implementation' such as etherparse is not linked). Default feature set (checksum field transmitted as zero); the compute_checksum configuration is C18. DNS/DHCP (Verus, unbounded): String modelled by uninterpreted sbytes/utf8_ok with two assumed std axioms; ghost parameter x and the rebinding of the mut iterator parameter are declared rewrites; BytesExt::next_ipv4addr assumed (validated by a complete Kani harness); Vec::extend(str::as_bytes()) routed to an assumed-contract wrapper. BOUNDED stand-in, never counted as proved (DESIGN.md 3.5): when a repository change takes a function out of the fragment Verus ingests (unit undecided), the model-differential scenario of the unit (h_w_dhcp_decode_model: truncations / corruptions of well-formed DHCP packets and 20000 pseudo-random strings) is run on the real code; a failure is reported as a violation with that concrete input, otherwise the check stays undecided (exit 2).",
         "assumptions": ["'representable header value' = what the public builders/constructors can produce with IHL = data offset = 5"],
         "explanation": "codec round trips and wire formats",
     },
@@ -140,7 +141,7 @@ PROPS = {
         "level": "proof",
         "technique": "Verus contracts on the extracted message.rs / chunk.rs / slice_range.rs functions against the byte-sequence view; Kani full-domain harness for the range conversions",
         "level_text": "Every mutating Message operation (new_inner, header_inner, concatenate, slice_inner, cut, remove_front) and Chunk::{new,as_slice,len,is_empty} is verified, for all chunk layouts and all arguments, to act on the denoted byte sequence exactly like the corresponding Vec/slice operation, and to preserve the representation invariant; loops are closed by inductive invariants (unbounded).",
-        "level_note": "Trusted: Verus/Z3; assumed specs VecDeque::{front,front_mut}, derive(Clone) on Chunk (vx_chunk_clone); declared rewrites iter_mut->index loop and drain(i..)->truncate(i) in slice_inner. NOT under contract: the generic wrappers new/header/slice (impl Into<..>), the observers iter()/to_vec()/PartialEq/Display (flat_map adapter chain: 'iter() yields exactly the view' is an assumption), From<&str>/From<String>/array From impls of Chunk. Independence of messages sharing storage follows from ownership: no function in the unit has &mut access to Chunk::bytes (Arc<Vec<u8>>), and every contract determines the new view of self / the result only.",
+        "level_note": "Trusted: Verus/Z3; assumed specs VecDeque::{front,front_mut}, derive(Clone) on Chunk (vx_chunk_clone); declared rewrites iter_mut->index loop and drain(i..)->truncate(i) in slice_inner. NOT under contract: the generic wrappers new/header/slice (impl Into<..>), the observers iter()/to_vec()/PartialEq/Display (flat_map adapter chain: 'iter() yields exactly the view' is an assumption), From<&str>/From<String>/array From impls of Chunk. Independence of messages sharing storage follows from ownership: no function in the unit has &mut access to Chunk::bytes (Arc<Vec<u8>>), and every contract determines the new view of self / the result only. BOUNDED stand-in, never counted as proved (DESIGN.md 3.5): when a repository change takes a function out of the fragment Verus ingests (unit undecided), the model-differential scenario of the unit (h_w_message_model: 4000 pseudo-random operation histories over messages sharing buffers vs Vec<u8>) is run on the real code; a failure is reported as a violation with that concrete input, otherwise the check stays undecided (exit 2).",
         "assumptions": ["Message::iter()/to_vec()/== observe exactly the view (not verified: iterator adapter chain)", "no code mutates through Arc<Vec<u8>> (no Arc::get_mut/make_mut in the crate)"],
         "explanation": "Message operations vs plain byte vectors",
     },
@@ -150,7 +151,7 @@ PROPS = {
         "level": "proof",
         "technique": "Verus contracts (bit-vector) on the extracted subnetting.rs / ipv4_address.rs / ip_table.rs functions + Kani full-domain harnesses on the real crate",
         "level_text": "Route lookup: IpTable::get_recipient is verified (Verus, real loop over BTreeMap::iter with vstd's BTreeMap specification) to return the value of the longest-mask network containing the address, None iff none; add/remove/add_direct/remove_direct are Map insert/remove on the abstract view (so order of insertion is irrelevant and adding twice replaces); Obm::cmp is verified against mask-descending-then-id order and shown to be a lawful total order. Mask/network arithmetic: every function of Ipv4Mask / Ipv4Net / Ipv4Address carries a postcondition against the interval [id, broadcast] semantics, discharged by Verus for all inputs and re-proved by loop-free Kani harnesses on the compiled crate.",
-        "level_note": "Trusted: Verus/Z3, Kani/CBMC; assumed specs of u32::{to,from}_be_bytes, count_ones, Result::or, RangeInclusive::{start,end,==}, derive(PartialEq/Ord) on the [u8;4]/u32 newtypes (each validated by a Kani h_assume_* harness against real core). vstd's opaque key_obeys_cmp_spec::<Obm>() is assumed (its content - Obm::cmp equals a lawful total order - is proved); IpTable::iter()'s one-line map adapter is inlined by a declared rewrite. add_cidr/remove_cidr/default_gateway and the FromIterator impls are not under contract. CIDR text parsing (std::net::Ipv4Addr::from_str) is not decided. `impl From<(Ipv4Address,Ipv4Mask)> for Ipv4Net` is not under contract.",
+        "level_note": "Trusted: Verus/Z3, Kani/CBMC; assumed specs of u32::{to,from}_be_bytes, count_ones, Result::or, RangeInclusive::{start,end,==}, derive(PartialEq/Ord) on the [u8;4]/u32 newtypes (each validated by a Kani h_assume_* harness against real core). vstd's opaque key_obeys_cmp_spec::<Obm>() is assumed (its content - Obm::cmp equals a lawful total order - is proved); IpTable::iter()'s one-line map adapter is inlined by a declared rewrite. add_cidr/remove_cidr/default_gateway and the FromIterator impls are not under contract. CIDR text parsing (std::net::Ipv4Addr::from_str) is not decided. `impl From<(Ipv4Address,Ipv4Mask)> for Ipv4Net` is not under contract. BOUNDED stand-in, never counted as proved (DESIGN.md 3.5): when a repository change takes a function out of the fragment Verus ingests (unit undecided), the model-differential scenario of the unit (h_w_iptable_model: 3000 add/remove/lookup histories vs a linear-scan longest-prefix model) is run on the real code; a failure is reported as a violation with that concrete input, otherwise the check stays undecided (exit 2).",
         "assumptions": ["Ipv4Mask values are only built by from_bitcount/try_from (private field) so mask.wf() is a type invariant", "CIDR text clause undecided"],
         "explanation": "subnet arithmetic contracts; routing-table clause see ip_table obligations",
     },
@@ -170,7 +171,7 @@ PROPS = {
         "level": "proof",
         "technique": "Verus contracts on the extracted modular_cmp.rs functions + Kani full-domain harnesses on the real crate",
         "level_text": "Every comparison primitive (mod_lt/leq/gt/geq/mod_bounded, ModCmp::offset) carries an exact postcondition against the mathematical circular order, discharged by Verus for all 2^32 x 2^32 (x 2^32) arguments and re-proved bit-precisely by loop-free Kani harnesses on the compiled crate; translation invariance is a lemma over those contracts. Connection level: the TCB contracts that determine the observables (text delivered and the movement of RCV.NXT, SND.UNA, SND.NXT, acceptability per RFC 9293 Table 6, the window-update rule, what the retransmission queue keeps, the numbering of new segments, the ISS/IRS bookkeeping of open and listen) are stated exclusively through circular distances and add32/sub32 relative to the TCB's own variables, so they are translation-invariant by form: any body that satisfies them behaves identically under a shift of either ISN on those observables, and a change that compares or subtracts absolute sequence numbers (saturating_sub, <, max) fails the clause for the inputs that straddle the wrap.",
-        "level_note": "Trusted: Verus/Z3, Kani/CBMC; vstd's specification of u32::wrapping_add/wrapping_sub. The lifting of translation invariance to whole connections rests on the TCB unit (see evidence for which TCB functions carry exact contracts).",
+        "level_note": "Trusted: Verus/Z3, Kani/CBMC; vstd's specification of u32::wrapping_add/wrapping_sub. The lifting of translation invariance to whole connections rests on the TCB unit (see evidence for which TCB functions carry exact contracts). BOUNDED stand-in, never counted as proved (DESIGN.md 3.5): when a repository change takes a function out of the fragment Verus ingests (unit undecided), the model-differential scenario of the unit (the TCB scenarios incl. the ISN-relative trace comparison of h_s_two_endpoints, which runs in every check) is run on the real code; a failure is reported as a violation with that concrete input, otherwise the check stays undecided (exit 2).",
         "assumptions": ["vstd specs of u32::wrapping_add / wrapping_sub"],
         "explanation": "comparison primitives against the mathematical circular order (Verus, all u32 pairs; Kani full-domain twin) and translation invariance lemmas",
     },
